@@ -446,6 +446,43 @@ subroutine k(n, a, s)
 end subroutine k
 """, 'k')
 
+add('falsy-initial-values', """
+module fz
+  implicit none
+  integer, parameter :: izero = 0
+  logical, parameter :: ldebug = .false.
+  real, parameter :: rzero = 0.0
+  integer :: calls = 0
+  type cnt_t
+    integer :: hits = 0
+    logical :: seen = .false.
+    real :: w = 1.5
+  end type cnt_t
+contains
+  subroutine k(n, a, s)
+    integer, intent(in) :: n
+    real, intent(inout) :: a(n)
+    real, intent(inout) :: s
+    type(cnt_t) :: c
+    integer :: i
+    do i=1,n
+      if (ldebug) then
+        a(i) = -1.0
+      else
+        a(i) = a(i) + real(izero + c%hits) + rzero
+      end if
+      c%hits = c%hits + 1
+      if (.not. c%seen) s = s + c%w
+      c%seen = .true.
+    end do
+    calls = calls + 1
+    associate(first => a(1))
+      first = first + real(calls)
+    end associate
+  end subroutine k
+end module fz
+""", 'k')
+
 add('named-exit-cycle(frontend-limit)', """
 subroutine k(n, a, t)
   integer, intent(in) :: n
